@@ -414,7 +414,9 @@ impl<T: Flt> SincInterpolator<T> for CrossInterp<T> {
         match self.taps_for(subindex) {
             Some(h) => {
                 let s: f64 = w.iter().zip(h.iter()).map(|(a, b)| (a.to64() * b).abs()).sum();
-                let bound = (self.len.max(16) as f64) * (T::EPS / 2.0) * s;
+                // relative summation-order bound + gradual-underflow quantum per operation
+                let denorm = if T::IS_F32 { f32::from_bits(1) as f64 } else { f64::from_bits(1) };
+                let bound = (self.len.max(16) as f64) * (T::EPS / 2.0) * s + 2.0 * self.len as f64 * denorm;
                 log.compared += 1;
                 for a in 1..vals.len() {
                     let d = (vals[a].to64() - vals[0].to64()).abs();
